@@ -244,8 +244,11 @@ func flows(cl *Cluster) []Flow {
 						continue
 					}
 					for _, ex := range pe.Block.Except {
-						if ip, _, ok := parsePrefix(ex); ok {
-							add(u32ToIP(ip + 1))
+						if ip, bits, ok := parsePrefix(ex); ok {
+							add(u32ToIP(ip)) // inside the exception
+							if bits < 32 {
+								add(u32ToIP(ip + 1))
+							}
 						}
 					}
 				}
